@@ -4351,6 +4351,11 @@ class ParameterizedMetaclass(type):
             if not hasattr(cls, '_param__parameters'):
                 continue
             for dep in cls.param._depends['watch']:
+                if dep[0] not in cls.__dict__:
+                    # cls only inherited this registration: the class
+                    # defining the method comes later in the MRO, and a
+                    # class earlier in the MRO may well override it
+                    continue
                 method = getattr(mcs, dep[0], None)
                 dinfo = getattr(method, '_dinfo', {'watch': False})
                 if (not any(dep[0] == w[0] for w in _watch+_inherited)
